@@ -135,7 +135,7 @@ class SqlFieldValCondition(SqlFilterCondition):
         elif self.op in ('=', '!='):
             if value is None:
                 self.op = 'IS NULL' if self.op == '=' else 'IS NOT NULL'
-            elif isinstance(value, (list, tuple)):
+            elif isinstance(value, (list, tuple, set)):
                 self.op = 'IN' if self.op == '=' else 'NOT IN'
         elif self.op in ('IN', 'NOT IN'):
             if not isinstance(value, (list, tuple, set)):
